@@ -206,6 +206,9 @@ class IkeSaController:
                 logging.error(f'Problem sending message: {ex}')
             except KeyError as ex:
                 logging.error(f'Could not find socket with the appropriate source address: {str(ex)}')
+            except Exception as ex:
+                # a malformed datagram, an unknown peer or a failed send must not stop the daemon
+                logging.error(f'Error while processing an event: {ex!r}')
 
     def close(self):
         xfrm.Xfrm.flush_policies()
